@@ -14,15 +14,20 @@ package main
 //        post=<0|1> old=<a=..;n=..;w=..;r=..> members=<map> | trial ; trial ...
 //   hist ops: nv3 (add non-voting 3), nv5rm5 (add non-voting 5, remove it),
 //             v2 (add voting 2: quorum is lost afterwards), w4 (add witness 4: ditto)
-//   trial:    <name> <corruption> <self> <raddr hex> <members map>
+//   pre=<map>: the real repair first runs the tool with this preliminary list on
+//             every host that is in both lists, then with the final list
+//   trial:    <name> <corruption> <self> <raddr hex> <members map> [first=<replica>/<map>]
+//             first=: an earlier ImportSnapshot of the intact export on the same
+//             host (as <replica>, with <map>), no restart in between
 //   corruptions: none del-snap extra-snap del-meta flip-meta:<k> trunc-meta
 //             flip-crc:<bit> flip-hdr:<k> flip-pad:<k> flip-payload:<k>
 //             flip-tail:<k> trunc:<k> append:<k> del-ext flip-ext:<k>
 // observations:
 //   <id> export OK old=<membership>
-//   <id> trial <n> <name> REFUSED|ACCEPTED
+//   <id> trial <n> <name> REFUSED | ACCEPTED rec=<membership recorded in the log store> | FIRST-REFUSED
 //   <id> import <replica> OK|ERR
 //   <id> restart members=[..] nonvoting=[] witness=[] removed=[..] state=EXPORTED propose=OK
+//   <id> restart2 members=[..] state=EXPORTED+LATER propose=OK     (every host stopped and started again)
 
 import (
 	"bytes"
@@ -508,11 +513,46 @@ type trial struct {
 	self             uint64
 	raddr            string
 	members          map[uint64]string
+	// an earlier import on the same host, without a restart in between:
+	// first=<replica>/<member map>
+	hasFirst     bool
+	firstSelf    uint64
+	firstMembers map[uint64]string
 }
 
 func parseTrial(s string) trial {
 	f := strings.Fields(s)
-	return trial{name: f[0], corruption: f[1], self: u64(f[2]), raddr: string(vh.UnHex(f[3])), members: parseMap(f[4])}
+	t := trial{name: f[0], corruption: f[1], self: u64(f[2]), raddr: string(vh.UnHex(f[3])), members: parseMap(f[4])}
+	if len(f) > 5 && strings.HasPrefix(f[5], "first=") {
+		p := strings.SplitN(strings.TrimPrefix(f[5], "first="), "/", 2)
+		t.hasFirst, t.firstSelf, t.firstMembers = true, u64(p[0]), parseMap(p[1])
+	}
+	return t
+}
+
+// the snapshot record a restarting NodeHost is going to find, as the harness prints it
+func showRecorded(ss pb.Snapshot, index uint64) string {
+	cc := "OTHER"
+	if ss.Membership.ConfigChangeId == index && ss.Index == index {
+		cc = "INDEX"
+	}
+	return fmt.Sprintf("a=%s/n=%s/w=%s/r=%s/imported=%v/ccid=%s", showMap(ss.Membership.Addresses),
+		showMap(ss.Membership.NonVotings), showMap(ss.Membership.Witnesses), showSet(ss.Membership.Removed), ss.Imported, cc)
+}
+
+func expectedRemoved(old pb.Membership, members map[uint64]string) map[uint64]bool {
+	want := map[uint64]bool{}
+	for k := range old.Removed {
+		want[k] = true
+	}
+	for _, m := range []map[uint64]string{old.Addresses, old.NonVotings, old.Witnesses} {
+		for k := range m {
+			if _, ok := members[k]; !ok {
+				want[k] = true
+			}
+		}
+	}
+	return want
 }
 
 func showOld(m pb.Membership) string {
@@ -557,6 +597,10 @@ func e2e(id, rest string, out func(string, ...interface{}), st *vh.Stats) {
 	st.Count("e2e.fs." + map[bool]string{true: "disk", false: "mem"}[w.disk])
 	nprops := int(u64(f["props"]))
 	finalMembers := parseMap(f["members"])
+	preMembers := map[uint64]string{}
+	if f["pre"] != "" && f["pre"] != "-" {
+		preMembers = parseMap(f["pre"])
+	}
 	st.Count("e2e.sm." + w.smKind)
 	st.Count("e2e.db." + w.db)
 
@@ -704,6 +748,20 @@ func e2e(id, rest string, out func(string, ...interface{}), st *vh.Stats) {
 				}
 			}
 			copyTree(fs, base, tdir)
+			if t.hasFirst {
+				// an earlier run of the tool on this host (intact export), no restart since
+				var e error
+				fp := vh.Catch(func() {
+					e = tools.ImportSnapshot(w.nhConfig(tdir, t.raddr), srcDir, t.firstMembers, t.firstSelf)
+				})
+				if fp != "" || e != nil {
+					out("trial %d %s FIRST-REFUSED", n, t.name)
+					_ = fs.RemoveAll(tdir)
+					_ = fs.RemoveAll(fmt.Sprintf("%s/x%d", w.root, n))
+					continue
+				}
+				st.Count("e2e.reimport")
+			}
 			before := digestTree(fs, tdir)
 			beforeT := map[string][]byte{}
 			listTree(fs, tdir, beforeT)
@@ -729,7 +787,24 @@ func e2e(id, rest string, out func(string, ...interface{}), st *vh.Stats) {
 						t.corruption, kind, t.name, treeDiff(tdir, beforeT, afterT)))
 				}
 			} else {
-				out("trial %d %s ACCEPTED", n, t.name)
+				// what the log store now records for the replica
+				var rec pb.Snapshot
+				var rerr0 error
+				rp0 := vh.Catch(func() { rec, rerr0 = tools.VerifReadSnapshotRecord(w.nhConfig(tdir, t.raddr), e2eShard, t.self) })
+				if rp0 != "" || rerr0 != nil {
+					out("trial %d %s ACCEPTED rec=UNREADABLE", n, t.name)
+					st.Violation(id, fmt.Sprintf("RECORD-UNREADABLE: the log store record cannot be read after an accepted import (trial %s): %v %s", t.name, rerr0, rp0))
+				} else {
+					out("trial %d %s ACCEPTED rec=%s", n, t.name, showRecorded(rec, index))
+					if showMap(rec.Membership.Addresses) != showMap(t.members) || len(rec.Membership.NonVotings) != 0 || len(rec.Membership.Witnesses) != 0 ||
+						showSet(rec.Membership.Removed) != showSet(expectedRemoved(oldss.Membership, t.members)) {
+						st.Violation(id, fmt.Sprintf("RECORDED-MEMBERSHIP: ImportSnapshot returned nil but the recorded membership is not the requested list (trial %s): recorded %s removed %s, requested %s",
+							t.name, showMap(rec.Membership.Addresses), showSet(rec.Membership.Removed), showMap(t.members)))
+					}
+					if !rec.Imported || rec.Index != index || rec.Membership.ConfigChangeId != index {
+						st.Violation(id, "RECORDED-MEMBERSHIP: the recorded snapshot is not the imported image (index / Imported / ConfigChangeId) in trial "+t.name)
+					}
+				}
 				// the property's refusal conditions, evaluated by the harness itself
 				if a, ok := t.members[t.self]; !ok || a != t.raddr {
 					st.Violation(id, "INVALID-LIST-ACCEPTED: import accepted although the importing replica is not listed at its own address (trial "+t.name+")")
@@ -781,6 +856,17 @@ func e2e(id, rest string, out func(string, ...interface{}), st *vh.Stats) {
 	dirs := map[uint64]string{}
 	for _, k := range ids {
 		dirs[k] = fmt.Sprintf("%s/nh%d", w.root, k) // replica 1 keeps its directory with the old data
+		if _, inPre := preMembers[k]; inPre {
+			// a first run of the tool with a list that is corrected afterwards
+			var e error
+			fp := vh.Catch(func() { e = tools.ImportSnapshot(w.nhConfig(dirs[k], preMembers[k]), srcDir, preMembers, k) })
+			if fp != "" || e != nil {
+				out("preimport %d ERR", k)
+				st.Violation(id, fmt.Sprintf("IMPORT-FAILED: first import (preliminary list) failed on replica %d: %v %s", k, e, fp))
+				return
+			}
+			st.Count("e2e.preimport")
+		}
 		var ierr error
 		pp := vh.Catch(func() { ierr = tools.ImportSnapshot(w.nhConfig(dirs[k], finalMembers[k]), srcDir, finalMembers, k) })
 		if pp != "" || ierr != nil {
@@ -867,17 +953,7 @@ func e2e(id, rest string, out func(string, ...interface{}), st *vh.Stats) {
 	if showMap(ms.Nodes) != showMap(finalMembers) || len(ms.NonVotings) != 0 || len(ms.Witnesses) != 0 {
 		st.Violation(id, "MEMBERSHIP: membership after repair is not the given list: "+showMap(ms.Nodes))
 	}
-	want := map[uint64]bool{}
-	for k := range oldss.Membership.Removed {
-		want[k] = true
-	}
-	for _, m := range []map[uint64]string{oldss.Membership.Addresses, oldss.Membership.NonVotings, oldss.Membership.Witnesses} {
-		for k := range m {
-			if _, ok := finalMembers[k]; !ok {
-				want[k] = true
-			}
-		}
-	}
+	want := expectedRemoved(oldss.Membership, finalMembers)
 	if showSet(want) != showSet(removed) {
 		st.Violation(id, fmt.Sprintf("REMOVED: removed set after repair %s, expected %s", showSet(removed), showSet(want)))
 	}
@@ -889,6 +965,91 @@ func e2e(id, rest string, out func(string, ...interface{}), st *vh.Stats) {
 	}
 	if w.extErr != "" {
 		st.Violation(id, "EXTFILE: "+w.extErr)
+	}
+	if prop == "OK" && state == "EXPORTED" {
+		// ---- second restart of every repaired replica: the imported snapshot is
+		// still its latest one (an on-disk state machine has shrunk the image
+		// after the first recovery); the state must be the exported state plus
+		// what was committed since the repair
+		later := map[string]string{}
+		for _, l := range strings.Split(exported, "\n") {
+			if p := strings.SplitN(l, "=", 2); len(p) == 2 {
+				later[p[0]] = p[1]
+			}
+		}
+		later["after"] = "repair"
+		wantLater := dumpMap(later)
+		// every replica has applied the proposal before it is stopped
+		for _, k := range ids {
+			_ = retry(func(ctx context.Context) error {
+				_, e := hosts[k].SyncRead(ctx, e2eShard, "dump")
+				return e
+			})
+		}
+		for _, k := range ids {
+			hosts[k].Close()
+			delete(hosts, k)
+		}
+		for _, k := range ids {
+			h, err := dragonboat.NewNodeHost(w.nhConfig(dirs[k], finalMembers[k]))
+			if err != nil {
+				out("restart2 FAILED newnodehost %d", k)
+				st.Violation(id, "RESTART-FAILED: NewNodeHost on the second restart: "+err.Error())
+				return
+			}
+			hosts[k] = h
+			if err := w.start(h, dirs[k], k, nil); err != nil {
+				out("restart2 FAILED start %d", k)
+				st.Violation(id, "RESTART-FAILED: start replica on the second restart: "+err.Error())
+				return
+			}
+		}
+		first = hosts[ids[0]]
+		if !waitLeader(first, 20*time.Second) {
+			out("restart2 FAILED noleader")
+			st.Violation(id, "NO-LEADER: no leader after the second restart of the repaired shard")
+			return
+		}
+		state2 := "EXPORTED+LATER"
+		for _, k := range ids {
+			var got interface{}
+			if err := retry(func(ctx context.Context) error {
+				var e error
+				got, e = hosts[k].SyncRead(ctx, e2eShard, "dump")
+				return e
+			}); err != nil {
+				state2 = fmt.Sprintf("READ-FAILED-%d", k)
+				break
+			}
+			if got.(string) != wantLater {
+				state2 = fmt.Sprintf("DIFFERENT-%d", k)
+				break
+			}
+		}
+		var ms2 *dragonboat.Membership
+		mem2 := "?"
+		if err := retry(func(ctx context.Context) error {
+			var e error
+			ms2, e = first.SyncGetShardMembership(ctx, e2eShard)
+			return e
+		}); err == nil {
+			mem2 = showMap(ms2.Nodes)
+		}
+		prop2 := "OK"
+		if err := propose(first, "after2=restart"); err != nil {
+			prop2 = "FAILED"
+		}
+		out("restart2 members=%s state=%s propose=%s", mem2, state2, prop2)
+		st.Count("e2e.restart2." + w.smKind)
+		if state2 != "EXPORTED+LATER" {
+			st.Violation(id, "STATE-AFTER-SECOND-RESTART: after the second restart a repaired replica does not hold the exported state plus the later entries: "+state2+" ("+w.smKind+" state machine)")
+		}
+		if mem2 != showMap(finalMembers) {
+			st.Violation(id, "MEMBERSHIP: membership after the second restart is not the given list: "+mem2)
+		}
+		if prop2 != "OK" {
+			st.Violation(id, "PROPOSE: the repaired shard does not accept proposals after its second restart")
+		}
 	}
 	st.Case("e2e "+head, true, id+" e2e "+head)
 }
@@ -993,6 +1154,17 @@ func genE2E(r *vh.Rand, i int, tier string) string {
 			good("trunc", fmt.Sprintf("trunc:%d", r.Intn(100000)))
 		}
 	}
+	// the tool run twice on one host without a restart in between: first with a
+	// list that keeps / adds a host (8), then with the corrected list; first as
+	// another replica id of the same host
+	trials = append(trials, tr("reimport-corrected", "none", self, members[self], members)+
+		fmt.Sprintf(" first=%d/%s", self, fmtMap(with(8, addrOf(8)))))
+	trials = append(trials, tr("reimport-grown", "none", self, members[self], with(8, addrOf(8)))+
+		fmt.Sprintf(" first=%d/%s", self, fmtMap(members)))
+	trials = append(trials, tr("reimport-other-id", "none", self, members[self], members)+
+		fmt.Sprintf(" first=%d/%s", 9, fmtMap(map[uint64]string{9: members[self], 8: addrOf(8)})))
+	trials = append(trials, tr("reimport-then-bad-list", "none", self, members[self], with(self, "moved:1"))+
+		fmt.Sprintf(" first=%d/%s", self, fmtMap(members)))
 	// bad member lists on the intact export
 	trials = append(trials, tr("not-listed", "none", 9, addrOf(9), members))
 	trials = append(trials, tr("other-address", "none", self, "elsewhere:1", members))
@@ -1011,6 +1183,12 @@ func genE2E(r *vh.Rand, i int, tier string) string {
 	if _, ok := members[1]; !ok {
 		trials = append(trials, tr("moved-self", "none", 1, "moved:1", with(1, "moved:1")))
 	}
-	return fmt.Sprintf("e2e sm=%s db=%s fs=%s props=%d hist=%s post=%d old=%s members=%s | %s",
-		smK, db, fsK, 3+r.Intn(20), hs, post, showOld(old), fmtMap(members), strings.Join(trials, " ; "))
+	// every second scenario runs the real repair twice per host: a preliminary
+	// list (with one more new host) first, the final list afterwards
+	pre := "-"
+	if i%2 == 1 {
+		pre = fmtMap(with(8, addrOf(8)))
+	}
+	return fmt.Sprintf("e2e sm=%s db=%s fs=%s props=%d hist=%s post=%d old=%s members=%s pre=%s | %s",
+		smK, db, fsK, 3+r.Intn(20), hs, post, showOld(old), fmtMap(members), pre, strings.Join(trials, " ; "))
 }
